@@ -760,7 +760,7 @@ def bounded(b):
     quick = b.tier != "thorough"
     if quick:
         depth2 = rng.sample(depth2, 250)
-    nrand = 120 if quick else 6000
+    nrand = 120 if quick else 1500
     b.rules.append("operation histories over 4 objects (Note, Rest, Measure, GraceNote = subclass of Note), times {0,1,2,5}, "
                    "add by start/end/both incl. equal start and end, remove start/end/both, set_quarter_duration, get_or_add_point, "
                    "then every query; all %d single operations, %d histories of length 2 (%s), %d seeded random histories of length 3..7; "
